@@ -119,7 +119,7 @@ func runC18(w *W) {
 	ndocs := 1 + t.Intn(4, "ndocs")
 	for d := 0; d < ndocs; d++ {
 		vo := vgenOpts{MaxElems: 1 + t.Intn(10, "val.elems"), MaxStr: 1 + sizeClass(t, "val.maxstr", 2000), Depth: 1 + t.Intn(4, "val.depth"),
-			PresentPct: pickInt(t, "val.present", 70, 100, 30), NullPct: pickInt(t, "val.null", 0, 10, 40), UnknownPct: pickInt(t, "val.unknown", 0, 0, 10, 30), Shuffle: true, LongDecimals: true}
+			PresentPct: pickInt(t, "val.present", 70, 100, 30), NullPct: pickInt(t, "val.null", 0, 10, 40), UnknownPct: pickInt(t, "val.unknown", 0, 0, 10, 30), Shuffle: true, LongDecimals: true, DenseLists: t.Chance(1, 3, "val.dense")}
 		vg := &vgen{t: t, o: vo}
 		val := vg.value(sch.Root, vo.Depth)
 		if opts.NoBase64Binary {
